@@ -8,7 +8,7 @@ V = os.path.dirname(os.path.dirname(os.path.abspath(__file__)))
 props = [json.loads(l) for l in open(os.path.join(V, "properties.jsonl"))]
 pd = os.path.join(V, "lean", "CR", "Props")
 ready = set(open(os.path.join(V, "lean", "READY")).read().split())
-mods = sorted(f[:-5] for f in os.listdir(pd) if f.endswith(".lean") and f[:3] in ready)
+mods = sorted(m for m in ready if os.path.exists(os.path.join(pd, m + ".lean")))
 
 TEXT = {
  "C01": ("Lean theorems (all games, all thresholds, any fuel): finals report exactly 1; states outside the backward-search set keep their initial value (with C07: no path => exactly 0); 0 <= report <= 1; the report never exceeds ANY pre-fixed point of the Bellman operator, hence never exceeds the max-min value (least pre-fixed point); monotone iterates; residual on exit <= threshold; equality with the value when the last sweep changed nothing; identical in both pruning modes (C04.prune_irrelevant). The clause 'within tolerance of the true value' is FALSE of the algorithm (residual stop) and is a listed known finding. Correspondence: Float instance of the same model vs Solver.solve_reachability on every generated game, bit-level. Oracle: exact values by strategy enumeration.", "5 C01"),
